@@ -37,8 +37,12 @@ Definition sheet_ok (d : sheetdef) : Prop :=
   Forall (fun cs => cs <> [] /\ Forall stripped cs) (sgrid d).
 Definition sheet_rows (d : sheetdef) : list (list str) := [sname d] :: ([] :: shead d) :: map (fun cs => [] :: cs) (sgrid d).
 Definition has_content (cs : list str) : bool := existsb nonempty cs.
-Definition data_rows (d : sheetdef) : list dictrow := map (zip_filled (shead d)) (filter has_content (sgrid d)).
-Definition entries (d : sheetdef) : book := [(sname d, VRows (data_rows d)); (header_key (sname d), VHeader (shead d))].
+(* a blank row of the grid is kept as an empty row (so that row numbers are those of the table); below the last row blank rows are dropped *)
+Definition row_of (hs cs : list str) : dictrow := if has_content cs then zip_filled hs cs else [].
+Definition raw_rows (d : sheetdef) : list dictrow := map (row_of (shead d)) (sgrid d).
+Definition data_rows (d : sheetdef) : list dictrow := trim_rows (raw_rows d).
+Definition entries (d : sheetdef) : book := [(sname d, VRows (raw_rows d)); (header_key (sname d), VHeader (shead d))].
+Definition final_entries (d : sheetdef) : book := [(sname d, VRows (data_rows d)); (header_key (sname d), VHeader (shead d))].
 Definition all_keys (W : list sheetdef) : list str := k_sheet_names :: flat_map (fun d => [sname d; header_key (sname d)]) W.
 
 Lemma map_strip_id cs : Forall stripped cs -> map py_strip cs = cs.
@@ -65,20 +69,18 @@ Lemma fold_data : forall grid s n hs pre rows post, Forall (fun cs => cs <> [] /
   sheet s = Some n -> headers s = Some hs -> mem n SUPPORTED_SHEET_NAMES = true ->
   bk s = pre ++ (n, VRows rows) :: post -> ~ In n (keys pre) ->
   let s' := fold_left (step lower_ascii) (map (fun cs => [] :: cs) grid) s in
-  bk s' = pre ++ (n, VRows (rows ++ map (zip_filled hs) (filter has_content grid))) :: post /\ sheet s' = Some n /\ headers s' = Some hs.
+  bk s' = pre ++ (n, VRows (rows ++ map (row_of hs) grid)) :: post /\ sheet s' = Some n /\ headers s' = Some hs.
 Proof.
-  induction grid as [|cs grid IH]; intros s n hs pre rows post Hg Hn Hh Hsup Hb Hk; cbn [map fold_left filter].
+  induction grid as [|cs grid IH]; intros s n hs pre rows post Hg Hn Hh Hsup Hb Hk; cbn [map fold_left].
   - rewrite app_nil_r. repeat split; assumption.
   - inversion Hg as [|? ? Hcs Hrest]; subst.
-    assert (Est : step lower_ascii s ([] :: cs) =
-              if has_content cs then {| bk := pre ++ (n, VRows (rows ++ [zip_filled hs cs])) :: post; sheet := Some n; headers := Some hs |} else s).
-    { destruct Hcs as [Hcne Hcs]. unfold step. rewrite (first_col_data cs Hcne Hcs). destruct (has_content cs).
+    assert (Est : step lower_ascii s ([] :: cs) = {| bk := pre ++ (n, VRows (rows ++ [row_of hs cs])) :: post; sheet := Some n; headers := Some hs |}).
+    { destruct Hcs as [Hcne Hcs]. unfold step, row_of. rewrite (first_col_data cs Hcne Hcs). destruct (has_content cs).
       - rewrite Hn, Hsup, Hh, Hb, (bget_mid pre n _ post Hk), (bput_mid pre n _ _ post Hk). reflexivity.
-      - destruct s; reflexivity. }
-    rewrite Est. destruct (has_content cs).
-    + cbn [map]. specialize (IH {| bk := pre ++ (n, VRows (rows ++ [zip_filled hs cs])) :: post; sheet := Some n; headers := Some hs |} n hs pre (rows ++ [zip_filled hs cs]) post Hrest eq_refl eq_refl Hsup eq_refl Hk).
-      cbn zeta in IH. rewrite <- app_assoc in IH. exact IH.
-    + apply IH; assumption.
+      - destruct cs as [|c r]; [congruence|]. rewrite Hn, Hh, Hsup, Hb, (bget_mid pre n _ post Hk), (bput_mid pre n _ _ post Hk). reflexivity. }
+    rewrite Est.
+    specialize (IH {| bk := pre ++ (n, VRows (rows ++ [row_of hs cs])) :: post; sheet := Some n; headers := Some hs |} n hs pre (rows ++ [row_of hs cs]) post Hrest eq_refl eq_refl Hsup eq_refl Hk).
+    cbn zeta in IH. rewrite <- app_assoc in IH. exact IH.
 Qed.
 
 Lemma process_sheet W1 d s : NoDup (all_keys (W1 ++ [d])) -> sheet_ok d -> Inv W1 s ->
@@ -121,7 +123,7 @@ Proof.
              Hg eq_refl eq_refl Hsup) as [Hb _].
   - unfold b1. rewrite <- app_assoc. reflexivity.
   - cbn [keys map fst]. rewrite keys_entries. exact Hf1.
-  - cbn zeta in Hb. rewrite Hb. rewrite map_app, flat_map_app. cbn [map flat_map entries app]. unfold data_rows. reflexivity.
+  - cbn zeta in Hb. rewrite Hb. rewrite map_app, flat_map_app. cbn [map flat_map entries app]. unfold raw_rows. reflexivity.
 Qed.
 Theorem csv_rows_round_trip : forall W2 W1 s, NoDup (all_keys (W1 ++ W2)) -> Forall sheet_ok W2 -> Inv W1 s ->
   bk (fold_left (step lower_ascii) (flat_map sheet_rows W2) s) = (k_sheet_names, VNames (map sname (W1 ++ W2))) :: flat_map entries (W1 ++ W2).
@@ -135,9 +137,19 @@ Proof.
     clear -Hnd. revert Hnd. generalize (k_sheet_names :: flat_map (fun d0 => [sname d0; header_key (sname d0)]) (W1 ++ [d])). intros l H.
     induction l as [|x l IHl]; [constructor|]. cbn [app] in H. inversion H as [|? ? Hx Hr]; subst. constructor; [intro Hin; apply Hx; apply in_or_app; left; exact Hin|apply IHl; exact Hr].
 Qed.
+Lemma trim_entries W : map (fun e => (fst e, trim_val (snd e))) (flat_map entries W) = flat_map final_entries W.
+Proof. induction W as [|d W IH]; [reflexivity|]. cbn [flat_map entries final_entries app map fst snd trim_val]. rewrite IH. reflexivity. Qed.
 Theorem csv_book_round_trip W : NoDup (all_keys W) -> Forall sheet_ok W ->
-  csv_book lower_ascii (flat_map sheet_rows W) = (k_sheet_names, VNames (map sname W)) :: flat_map entries W.
-Proof. intros Hnd Hok. unfold csv_book. apply (csv_rows_round_trip W [] _ Hnd Hok). reflexivity. Qed.
+  csv_book lower_ascii (flat_map sheet_rows W) = (k_sheet_names, VNames (map sname W)) :: flat_map final_entries W.
+Proof.
+  intros Hnd Hok. unfold csv_book. rewrite (csv_rows_round_trip W [] _ Hnd Hok) by reflexivity.
+  cbn [app map fst snd trim_val]. rewrite trim_entries. reflexivity.
+Qed.
+(* what the trimming does: nothing to a sheet that does not end in a blank row; blank rows inside the data stay where they are *)
+Lemma trim_rows_snoc l r : r <> [] -> trim_rows (l ++ [r]) = l ++ [r].
+Proof. intro H. unfold trim_rows. rewrite rev_app_distr. cbn [rev app drop_blank_front]. destruct r; [congruence|]. cbn [rev]. rewrite rev_involutive. reflexivity. Qed.
+Lemma trim_rows_blank l : trim_rows (l ++ [[]]) = trim_rows l.
+Proof. unfold trim_rows. rewrite rev_app_distr. reflexivity. Qed.
 
 (* ---- through the text: the rows are written by a QUOTE_ALL writer and read by the RFC 4180 reader (Spec/Csv.v) ---- *)
 Lemma sheet_rows_nonempty W : Forall (fun r => r <> []) (flat_map sheet_rows W).
@@ -146,7 +158,7 @@ Proof.
   unfold sheet_rows. constructor; [discriminate|]. constructor; [discriminate|]. apply Forall_map. apply Forall_forall. intros cs _. discriminate.
 Qed.
 Theorem csv_text_round_trip W : NoDup (all_keys W) -> Forall sheet_ok W ->
-  option_map (csv_book lower_ascii) (parse_csv (write_csv (flat_map sheet_rows W))) = Some ((k_sheet_names, VNames (map sname W)) :: flat_map entries W).
+  option_map (csv_book lower_ascii) (parse_csv (write_csv (flat_map sheet_rows W))) = Some ((k_sheet_names, VNames (map sname W)) :: flat_map final_entries W).
 Proof.
   intros Hnd Hok. rewrite (parse_write_csv _ (sheet_rows_nonempty W)). cbn [option_map]. f_equal. apply csv_book_round_trip; assumption.
 Qed.
